@@ -27,4 +27,11 @@ PROPS = {
     "C05": _core(5, ["cs_timeout", "timeouts"]),
     "C06": _core(6, ["cs_expire", "expiries"]),
     "C17": _core(17, ["quiescent_checks", "reply_counts_asserted"]),
+    "C15": _core(15, ["cs_request"], {"rule": _core_rule + "; C15 scenario kinds carry a value operation (SET UNSET INCR APPEND SHIFT PUSH POP PIPELINE, with and without property headers) on ~75% of the requests; every value written is unique"}),
 }
+PROPS["C02"]["required_probes"].append("holders_gt128")
+PROPS["C04"]["required_probes"] += ["queue_gt8", "queue_gt128"]
+PROPS["C05"]["required_probes"].append("waiter_in_long_table")
+PROPS["C06"]["required_probes"].append("hold_in_long_table")
+PROPS["C02"]["quick"]["runs"] = 4000
+PROPS["C04"]["quick"]["runs"] = 3000
